@@ -1,4 +1,5 @@
 """C08 — schemas are immutable values: deriving a schema never changes an existing one."""
+import os, re, shutil
 from . import common as C
 
 MANIFEST = dict(
@@ -7,7 +8,7 @@ MANIFEST = dict(
    note="Partial: Meta() on 28 non-string schema types is excluded (open known findings). The store model is a hand-written abstraction (observation = contents reachable from the schema; Parse/ToJSONSchema are taken to be functions of it), tied to /repo by reflective snapshots (slice headers, map identities, contents) and behavioural fingerprints (31 probes, IsOptional/IsNilable, ToJSONSchema) after every call of ~1400 type×method pairs; op classes come from a name table in the harness; append capacities and 'result starts with a registry entry' are taken from the run as parameters. Trusted: Lean kernel, axioms propext/Classical.choice/Quot.sound, the Go harness and comparer.",
    design="DESIGN.md §3.4, §5 C08")
 
-MODULES = ["Gozod.Proofs.C08"]
+MODULES = ["Gozod.Proofs.C08", "Gozod.Proofs.C08Methods"]
 THEOREMS = [
     "Gozod.C08.c08_step", "Gozod.C08.c08_hist", "Gozod.C08.c08_hist_all", "Gozod.C08.c08_fresh",
     "Gozod.C08.applyOp_spec", "Gozod.C08.clone_spec", "Gozod.C08.appendAll_spec",
@@ -17,6 +18,11 @@ THEOREMS = [
     "Gozod.C08.spare_capacity_siblings_clobber", "Gozod.C08.inv_base",
     "Gozod.C08.obsL_frame", "Gozod.C08.wfl_frame", "Gozod.C08.applyLOp_spec", "Gozod.C08.c08_local_step",
     "Gozod.C08.exceptions_in_place_mutates_receiver",
+    # round 4: the regenerated method table (Gen/MethodOps.lean) and the extended op classes
+    "Gozod.C08.table_classified", "Gozod.C08.table_nonvacuous", "Gozod.C08.tcall_inhabited", "Gozod.C08.denote_ok",
+    "Gozod.C08.applyRefilter_spec", "Gozod.C08.applyXOp_spec", "Gozod.C08.c08x_step", "Gozod.C08.c08x_hist", "Gozod.C08.c08x_hist_all",
+    "Gozod.C08.c08_table_step", "Gozod.C08.c08_table_hist_all", "Gozod.C08.metaSelf_row_violates", "Gozod.C08.metaSelf_rows_shape",
+    "Gozod.C08.obsN_frame", "Gozod.C08.applySlots_spec", "Gozod.C08.c08n_step", "Gozod.C08.slots_of_covered",
 ]
 
 
@@ -34,11 +40,20 @@ def steps_of(op):
 def key(op, impl, M, S):
     head, steps = steps_of(op)
     iv = impl.split(" ")[0].split(";")
+    if iv and iv[0].startswith("V:"):
+        iv[0] = iv[0][2:]
+    if len(head) > 1 and head[1] == "OBJ":
+        # object-content histories: steps are <recv> <op> <arg>
+        for k, st in enumerate(steps):
+            if k < len(iv) and iv[k] not in ("1:", "e:"):
+                what = "returns-receiver" if iv[k].startswith("0") else "changes-live-schema"
+                return "%s:ZodObject.%s" % (what, st[1])
+        return "tie:object-content"
     first_meta, first_other = None, None
     for k, st in enumerate(steps):
         if k >= len(iv) or iv[k] == "1:":
             continue
-        cls, meth = st[1], st[-1]
+        cls, meth = st[1], st[8]
         name, _, typ = meth.partition("@")
         if cls == "metaself":
             first_meta = first_meta or "meta-returns-receiver:" + typ
@@ -49,6 +64,9 @@ def key(op, impl, M, S):
 
 
 def describe(op):
+    if steps_of(op)[0][1:2] == ["OBJ"]:
+        return ("object-content history: members M:<id>=<optional><accepts 'v'> (0 String, 1 String.Optional, 2 Int, 3 String.Min(1)), base Object B:<key>=<member>; "
+                "steps <receiver index> <derivation> <argument> (keys k1..k4 = 1..4); see harness/cmd/c08/objhist.go")
     return ("history over base %s (constructor in harness/storex Bases()); steps after '#': <receiver index>.<Method>/<argument variant>; "
             "live index 0 = base, every call's result joins the live list" % steps_of(op)[0][1])
 
@@ -71,11 +89,60 @@ def rewrite(data):
     return ops, impl2, model2, stats
 
 
-def run(res):
-    ok, detail = C.prove(res, MODULES, THEOREMS)
+GEN_DIR = os.path.join(C.LEAN, "Gozod", "Gen")
+
+
+def translate(res):
+    """harness/opsgen: go/ast over types/*.go + core/transform.go of the working tree -> Gen/MethodOps.lean."""
+    ok, out = C.build_harness("C08")
     if not ok:
-        C.tie_broken(res, "proof Gozod.Proofs.C08", detail)
-    data, err = C.correspond(res, "C08")
+        return False, "harness does not build against the library:\n" + out[-3000:]
+    tmp = os.path.join(C.BUILD, "run", "C08-gen-%d" % os.getpid()); os.makedirs(tmp, exist_ok=True)
+    with C.Lock("c08gen"):
+        rc, out = C.run([C.harness_bin("C08"), "-out", tmp, "-gen", GEN_DIR, "-repo", C.REPO], env=C.goenv(), timeout=600)
+    shutil.rmtree(tmp, ignore_errors=True)
+    if rc != 0:
+        return False, out[-3000:]
+    if "changed: true" in out:
+        res.notes.append("Gen/MethodOps.lean changed and was rewritten")
+    m = re.search(r"rows: (\d+)", out)
+    res.coverage["method_table_rows"] = int(m.group(1)) if m else None
+    return True, ""
+
+
+def driver_query(word):
+    """one-word queries of driver_c08 about the regenerated table (c08bad / c08exceptions)."""
+    import subprocess
+    try:
+        p = subprocess.run([C.driver_bin("C08")], input=word + "\n", capture_output=True, text=True, timeout=120)
+    except Exception as e:
+        return None
+    line = p.stdout.strip().split("\t")[0]
+    if line.startswith("bad:"):
+        line = line[4:]
+    return [x for x in line.split(",") if x]
+
+
+def run(res):
+    okT, detT = translate(res)
+    if not okT:
+        C.tie_broken(res, "translator C08 (types/*.go -> Gen/MethodOps.lean)", detT)
+        return res.finish()
+    ok, detail = C.prove(res, MODULES, THEOREMS)
+    extra = []
+    if not ok:
+        C.tie_broken(res, "proof Gozod.Proofs.C08 / C08Methods", detail)
+        # aim the history search: which rows of the regenerated table does `table_classified` reject?
+        okd, _ = C.lake_build(["driver_c08"])
+        bad = driver_query("c08 bad") if okd else None
+        if bad:
+            res.notes.append("rows of Gen/MethodOps.lean rejected by table_classified (histories aimed at them): " + ", ".join(bad))
+            res.coverage["table_rows_rejected"] = bad
+            extra = ["-focus", ",".join(bad)]
+    else:
+        ex = driver_query("c08 exceptions") or []
+        res.coverage["table_exception_rows"] = ex
+    data, err = C.correspond(res, "C08", extra_args=extra)
     if data is None:
         C.tie_broken(res, "correspondence C08/store-histories", err)
         return res.finish()
